@@ -255,6 +255,10 @@ func (w *World) findFunc(pkgPath, name string) *ssa.Function {
 
 func (w *World) setIntercepts(c *Config) error {
 	c.icpt = map[string]*Intercept{}
+	// default models (when the models package is loaded)
+	if f := w.findFunc(repoMod+"/pkg/zzverifmodels", "ErrorsIs"); f != nil {
+		c.icpt["errors.Is"] = &Intercept{Kind: "model", Fn: f}
+	}
 	for callee, spec := range c.Intercepts {
 		switch {
 		case spec == "noop" || spec == "havoc" || spec == "nativeobj":
